@@ -24,8 +24,14 @@
    bounds and monotonicity along the curve (flow lift cited, DESIGN 3.7).  The pair
    counts of a request (`req_pairs`) are, for explicit sets, the counts over
    G.edges(); theorem C06_req_pairs_are_ordered_pair_counts (handshake lemma) shows
-   they are the order-free numbers of ordered adjacent S-S, S-I, I-I pairs. *)
-From EoNV Require Import Prelude Graph Aux Vec IC Wrappers VecP ICP ICHand ICPair ICEd ICEbcm Rhs ICConserve.
+   they are the order-free numbers of ordered adjacent S-S, S-I, I-I pairs.
+   The last part of the file states the conservation / sign clauses for the 2-D and
+   node-level right-hand sides (individual based, pair based, heterogeneous pairwise,
+   effective degree) over the hand-written models of Model/Rhs2D.v; the very last part
+   (theorems C06_generated_...) proves that these models equal the definitions that
+   translate/rhs2d2v.py regenerates from EoN/analytic.py on every run (Gen/Rhs2.v);
+   both are also point-evaluated against the code (harness/rhs2_lib.py). *)
+From EoNV Require Import Prelude Graph Aux Vec IC Wrappers VecP ICP ICHand ICPair ICEd ICEbcm Rhs ICConserve Rhs2D Rhs2DP Rhs2 Rhs2GenP.
 
 (* ---------- non-vacuity of the hypotheses ---------- *)
 Example C06_wf_example :
@@ -349,3 +355,231 @@ Theorem sign_dS_SIR_homogeneous_meanfield_nonpositive :
     vnth 0 (dSIR_homogeneous_meanfield [S; I] t c tau gamma) <= 0.
 Proof. exact sign_dS_SIR_homogeneous_meanfield. Qed.
 Print Assumptions sign_dS_SIR_homogeneous_meanfield_nonpositive.
+
+
+(* ====================================================================== *)
+(* 2-D and node-level right-hand sides (Model/Rhs2D.v; proofs Rhs2DP.v)    *)
+(* ====================================================================== *)
+(* layout: each right-hand side is the concatenation of its named component functions, in the order of the state *)
+Theorem layout_SIS_individual_based : forall G nodelist idx tr rc Y t i, (i < nN nodelist)%nat ->
+  vnth i (dSIS_individual_based G nodelist idx tr rc Y t) = ibSIS_dY G nodelist idx tr rc Y i.
+Proof. exact ibSIS_layout. Qed.
+Print Assumptions layout_SIS_individual_based.
+Theorem layout_SIR_individual_based : forall G nodelist idx tr rc V t i, (i < nN nodelist)%nat ->
+  vnth i (dSIR_individual_based G nodelist idx tr rc V t) = ibSIR_dX G nodelist idx tr V i /\
+  vnth (nN nodelist + i) (dSIR_individual_based G nodelist idx tr rc V t) = ibSIR_dY G nodelist idx tr rc V i.
+Proof. exact ibSIR_layout. Qed.
+Print Assumptions layout_SIR_individual_based.
+Theorem layout_SIR_pair_based : forall G nodelist idx tr rc V t i j, (i < nN nodelist)%nat -> (j < nN nodelist)%nat ->
+  let D := dSIR_pair_based G nodelist idx tr rc V t in
+  prX D i = pbSIR_dX G nodelist idx tr V i /\ prY nodelist D i = pbSIR_dY G nodelist idx tr rc V i /\
+  prXY nodelist D i j = pbSIR_dXY G nodelist idx tr rc V i j /\ prXX nodelist D i j = pbSIR_dXX G nodelist idx tr V i j.
+Proof. exact pbSIR_layout. Qed.
+Print Assumptions layout_SIR_pair_based.
+Theorem layout_SIS_pair_based : forall G nodelist idx tr rc V t i j, (i < nN nodelist)%nat -> (j < nN nodelist)%nat ->
+  let D := dSIS_pair_based G nodelist idx tr rc V t in
+  psY D i = pbSIS_dY G nodelist idx tr rc V i /\
+  psXY nodelist D i j = pbSIS_dXY G nodelist idx tr rc V i j /\ psXX nodelist D i j = pbSIS_dXX G nodelist idx tr rc V i j.
+Proof. exact pbSIS_layout. Qed.
+Print Assumptions layout_SIS_pair_based.
+Theorem layout_SIS_heterogeneous_pairwise : forall tau gamma Ks X Nk NkNl t i j, (i < length Ks)%nat -> (j < length Ks)%nat ->
+  let D := dSIS_heterogeneous_pairwise X Nk NkNl tau gamma Ks t in
+  vnth i D = hs_dSk X Nk tau gamma Ks i /\
+  vnth (length Ks + i * length Ks + j) D = hs_dSkSl X tau gamma Ks i j /\
+  vnth (length Ks + length Ks * length Ks + i * length Ks + j) D = hs_dSkIl X NkNl tau gamma Ks i j.
+Proof. exact hpSIS_layout. Qed.
+Print Assumptions layout_SIS_heterogeneous_pairwise.
+Theorem layout_SIR_heterogeneous_pairwise : forall tau gamma Ks X t i j, (i < length Ks)%nat -> (j < length Ks)%nat ->
+  let D := dSIR_heterogeneous_pairwise X tau gamma Ks t in
+  vnth i D = hr_dSk X tau Ks i /\ vnth (length Ks + i) D = hr_dIk X tau gamma Ks i /\
+  vnth (2 * length Ks + i * length Ks + j) D = hr_dSkSl X tau Ks i j /\
+  vnth (2 * length Ks + length Ks * length Ks + i * length Ks + j) D = hr_dSkIl X tau gamma Ks i j.
+Proof. exact hpSIR_layout. Qed.
+Print Assumptions layout_SIR_heterogeneous_pairwise.
+Theorem layout_SIS_effective_degree : forall r c, (1 <= r)%nat -> (1 <= c)%nat -> forall X tau gamma t s i, (s < r)%nat -> (i < c)%nat ->
+  let D := dSIS_effective_degree X r c tau gamma t in
+  vnth (s * c + i) D = es_dS X r c tau gamma s i /\ vnth (r * c + s * c + i) D = es_dI X r c tau gamma s i.
+Proof. exact edSIS_layout. Qed.
+Print Assumptions layout_SIS_effective_degree.
+Theorem layout_SIR_effective_degree : forall r c, (1 <= r)%nat -> (1 <= c)%nat -> forall X N tau gamma t s i, (s < r)%nat -> (i < c)%nat ->
+  let D := dSIR_effective_degree X N r c tau gamma t in
+  vnth (s * c + i) D = er_dS X r c tau gamma s i /\ vnth (r * c) D = er_dR X N r c gamma.
+Proof. exact edSIR_layout. Qed.
+Print Assumptions layout_SIR_effective_degree.
+
+(* ---- individual based ---- *)
+(* SIR: the wrapper returns Z_i = 1 - X_i - Y_i; dX_i + dY_i = - gamma_i Y_i, i.e. dZ_i = gamma_i Y_i *)
+Theorem conserve_SIR_individual_based : forall G nodelist idx tr rc V i,
+  ibSIR_dX G nodelist idx tr V i + ibSIR_dY G nodelist idx tr rc V i == - rc (node_at nodelist i) * vnth (nN nodelist + i) V.
+Proof. exact ibSIR_conserve. Qed.
+Print Assumptions conserve_SIR_individual_based.
+Theorem sign_dX_SIR_individual_based : forall G nodelist idx tr V i,
+  (forall u v, 0 <= tr u v) -> Forall (fun x => 0 <= x) V -> ibSIR_dX G nodelist idx tr V i <= 0.
+Proof. exact ibSIR_sign_dX. Qed.
+Print Assumptions sign_dX_SIR_individual_based.
+Theorem sign_dZ_SIR_individual_based : forall G nodelist idx tr rc V i,
+  0 <= rc (node_at nodelist i) -> 0 <= vnth (nN nodelist + i) V ->
+  0 <= - (ibSIR_dX G nodelist idx tr V i + ibSIR_dY G nodelist idx tr rc V i).
+Proof. exact ibSIR_sign_dZ. Qed.
+Print Assumptions sign_dZ_SIR_individual_based.
+(* SIS: X_i = 1 - Y_i is rebuilt by subtraction (structural); the field points inward on the faces Y_i = 0, Y_i = 1 *)
+Theorem sign_face0_SIS_individual_based : forall G nodelist idx tr rc Y i,
+  (forall u v, 0 <= tr u v) -> Forall (fun x => 0 <= x) Y -> vnth i Y == 0 -> 0 <= ibSIS_dY G nodelist idx tr rc Y i.
+Proof. exact ibSIS_face0. Qed.
+Print Assumptions sign_face0_SIS_individual_based.
+Theorem sign_face1_SIS_individual_based : forall G nodelist idx tr rc Y i,
+  0 <= rc (node_at nodelist i) -> vnth i Y == 1 -> ibSIS_dY G nodelist idx tr rc Y i <= 0.
+Proof. exact ibSIS_face1. Qed.
+Print Assumptions sign_face1_SIS_individual_based.
+
+(* ---- pair based ---- *)
+Theorem conserve_SIR_pair_based : forall G nodelist idx tr rc V i,
+  pbSIR_dX G nodelist idx tr V i + pbSIR_dY G nodelist idx tr rc V i == - rc (node_at nodelist i) * prY nodelist V i.
+Proof. exact pbSIR_conserve. Qed.
+Print Assumptions conserve_SIR_pair_based.
+Theorem sign_dX_SIR_pair_based : forall G nodelist idx tr V i,
+  (forall u v, 0 <= tr u v) -> Forall (fun x => 0 <= x) V -> pbSIR_dX G nodelist idx tr V i <= 0.
+Proof. exact pbSIR_sign_dX. Qed.
+Print Assumptions sign_dX_SIR_pair_based.
+
+(* ---- heterogeneous pairwise ---- *)
+(* SIS: [S_k] + [I_k] = N_k and [S_k S_l] + [S_k I_l] + [I_k S_l] + [I_k I_l] = N_kl hold by construction (I_k and I_k I_l are
+   not coordinates: sum_k (dS_k + dI_k) = 0 and the pair total are structural) *)
+Theorem conserve_SIS_heterogeneous_pairwise_structural : forall X Nk NkNl Ks i j,
+  hs_Sk X i + hs_Ik X Nk i == vnth i Nk /\
+  hs_SkSl X Ks i j + hs_SkIl X Ks i j + hs_SkIl X Ks j i + hs_IkIl X NkNl Ks i j == vnth (i * length Ks + j) NkNl.
+Proof. exact hpSIS_structural. Qed.
+Print Assumptions conserve_SIS_heterogeneous_pairwise_structural.
+(* the subtraction uses [I_k S_l] = [S_l I_k] and a symmetric [S_k S_l]: the right-hand side keeps [S_k S_l] symmetric *)
+Theorem conserve_SkSl_symmetry_SIS_heterogeneous_pairwise : forall tau gamma Ks X i j,
+  hs_dSkSl X tau gamma Ks i j == hs_dSkSl X tau gamma Ks j i.
+Proof. exact hpSIS_dSkSl_sym. Qed.
+Print Assumptions conserve_SkSl_symmetry_SIS_heterogeneous_pairwise.
+Theorem conserve_SkSl_symmetry_SIR_heterogeneous_pairwise : forall tau Ks X i j,
+  hr_dSkSl X tau Ks i j == hr_dSkSl X tau Ks j i.
+Proof. exact hpSIR_dSkSl_sym. Qed.
+Print Assumptions conserve_SkSl_symmetry_SIR_heterogeneous_pairwise.
+(* pair counts stay consistent with class sizes: where sum_l ([S_k S_l] + [S_k I_l]) = k [S_k] and
+   sum_l ([I_k S_l] + [I_k I_l]) = k [I_k] hold, their derivatives agree as well *)
+Theorem conserve_pair_count_SIS_heterogeneous_pairwise : forall X Nk NkNl tau gamma Ks k,
+  ~ vnth k Ks * (1 * hs_Sk X k) == 0 ->
+  (forall l, (l < length Ks)%nat -> hs_SkSl X Ks l k == hs_SkSl X Ks k l) ->
+  sumn (length Ks) (fun l => hs_SkSl X Ks k l + hs_SkIl X Ks k l) == vnth k Ks * hs_Sk X k ->
+  sumn (length Ks) (fun l => hs_SkIl X Ks l k + hs_IkIl X NkNl Ks k l) == vnth k Ks * hs_Ik X Nk k ->
+  sumn (length Ks) (fun l => hs_dSkSl X tau gamma Ks k l + hs_dSkIl X NkNl tau gamma Ks k l) == vnth k Ks * hs_dSk X Nk tau gamma Ks k.
+Proof. exact hpSIS_pair_count_consistency. Qed.
+Print Assumptions conserve_pair_count_SIS_heterogeneous_pairwise.
+(* SIR: R_k = N_k - S_k - I_k is rebuilt by subtraction; dS_k + dI_k = - gamma I_k (dR_k = gamma I_k), dS_k <= 0 *)
+Theorem conserve_SIR_heterogeneous_pairwise : forall tau gamma Ks X i,
+  hr_dSk X tau Ks i + hr_dIk X tau gamma Ks i == - gamma * hr_Ik X Ks i.
+Proof. exact hpSIR_conserve. Qed.
+Print Assumptions conserve_SIR_heterogeneous_pairwise.
+Theorem sign_dS_SIR_heterogeneous_pairwise : forall tau Ks X i,
+  0 <= tau -> Forall (fun x => 0 <= x) X -> hr_dSk X tau Ks i <= 0.
+Proof. exact hpSIR_sign_dS. Qed.
+Print Assumptions sign_dS_SIR_heterogeneous_pairwise.
+
+(* ---- effective degree ---- *)
+(* SIS_effective_degree returns S = sum S_si and I = sum I_si, BOTH read from the solver: S + I = N rests on the two
+   blocks of the right-hand side summing to zero.  Exact totals of the blocks (no hypothesis on the state): the code's
+   zero-padded shifts lose lost_row A = sum_i i A[r-1, i] through recovery of a neighbour and lost_col A = sum_s s A[s, c-1]
+   through infection of a neighbour. *)
+Theorem totals_SIS_effective_degree : forall r c X tau gamma t,
+  let D := dSIS_effective_degree X r c tau gamma t in
+  vsum (firstn (r * c) D) == sumn2 r c (es_dS X r c tau gamma) /\ vsum (skipn (r * c) D) == sumn2 r c (es_dI X r c tau gamma).
+Proof. exact edSIS_totals. Qed.
+Print Assumptions totals_SIS_effective_degree.
+Theorem sum_dS_SIS_effective_degree : forall r c, (1 <= r)%nat -> (1 <= c)%nat -> forall X tau gamma,
+  sumn2 r c (es_dS X r c tau gamma) ==
+  - tau * es_SI X r c + gamma * sumn2 r c (es_I X r c) - gamma * lost_row r c (es_S X c)
+  - tau * es_ISS X r c / es_SS X r c * lost_col r c (es_S X c).
+Proof. exact edSIS_sum_dS. Qed.
+Print Assumptions sum_dS_SIS_effective_degree.
+Theorem sum_dI_SIS_effective_degree : forall r c, (1 <= r)%nat -> (1 <= c)%nat -> forall X tau gamma,
+  sumn2 r c (es_dI X r c tau gamma) ==
+  tau * es_SI X r c - gamma * sumn2 r c (es_I X r c) - gamma * lost_row r c (es_I X r c)
+  - tau * (es_ISI X r c / es_SI X r c + 1) * lost_col r c (es_I X r c).
+Proof. exact edSIS_sum_dI. Qed.
+Print Assumptions sum_dI_SIS_effective_degree.
+(* on the model's feasible region (S_si = I_si = 0 for s + i > kmax, in particular on the last row for i >= 1 and the
+   last column for s >= 1: boundary0) nothing is lost and sum (dS_si + dI_si) = 0 *)
+Theorem conserve_SIS_effective_degree : forall r c, (1 <= r)%nat -> (1 <= c)%nat -> forall X tau gamma,
+  boundary0 r c (es_S X c) -> boundary0 r c (es_I X r c) ->
+  sumn2 r c (es_dS X r c tau gamma) + sumn2 r c (es_dI X r c tau gamma) == 0.
+Proof. exact edSIS_conserve. Qed.
+Print Assumptions conserve_SIS_effective_degree.
+(* SIR: I = N - S - R is rebuilt by subtraction; dR = gamma I with that very I; the total of S does not increase *)
+Theorem sign_dR_SIR_effective_degree : forall r c X N gamma,
+  er_dR X N r c gamma == gamma * (N - sumn2 r c (er_S X c) - er_R X r c).
+Proof. exact edSIR_dR. Qed.
+Print Assumptions sign_dR_SIR_effective_degree.
+Theorem sign_dS_SIR_effective_degree : forall r c, (1 <= r)%nat -> (1 <= c)%nat -> forall X tau gamma,
+  boundary0 r c (er_S X c) -> 0 <= tau -> Forall (fun x => 0 <= x) X -> sumn2 r c (er_dS X r c tau gamma) <= 0.
+Proof. exact edSIR_sign_dS. Qed.
+Print Assumptions sign_dS_SIR_effective_degree.
+(* non-vacuity: a feasible state with kmax = 1 (r = c = 2): the boundary hypothesis holds, the two block totals are
+   non-zero and cancel; and a state off the feasible region where the total is NOT conserved (the hypothesis is needed) *)
+Example conserve_SIS_effective_degree_nonvacuous :
+  let X := [3; 2; 1; 0; 1; 1; 2; 0] in
+  boundary0 2 2 (es_S X 2) /\ boundary0 2 2 (es_I X 2 2) /\
+  ~ sumn2 2 2 (es_dS X 2 2 1 1) == 0 /\
+  ~ sumn2 2 2 (es_dS [3; 2; 1; 1; 1; 1; 2; 0] 2 2 1 1) + sumn2 2 2 (es_dI [3; 2; 1; 1; 1; 1; 2; 0] 2 2 1 1) == 0.
+Proof.
+  cbv zeta. split; [|split; [|split]].
+  - split; intros k Hk; assert (k = 1%nat) by lia; subst; reflexivity.
+  - split; intros k Hk; assert (k = 1%nat) by lia; subst; reflexivity.
+  - intro H. vm_compute in H. discriminate.
+  - intro H. vm_compute in H. discriminate.
+Qed.
+Print Assumptions conserve_SIS_effective_degree_nonvacuous.
+
+(* ====================================================================== *)
+(* the hand-written models ARE the code: definitions generated from the    *)
+(* source on every run (Gen/Rhs2.v, translate/rhs2d2v.py, fail-closed)     *)
+(* equal the models of Model/Rhs2D.v that the theorems above are about     *)
+(* ====================================================================== *)
+(* Domain: shapes consistent (where numpy would raise nothing is claimed).  Pair based: `pb_wfb G nodelist idx`
+   (boolean) = G.order() = len(nodelist), index_of_node[nodelist[i]] = i, adjacency lists duplicate-free and inside
+   nodelist -- what every caller in analytic.py establishes (index_of_node = {node: i for i, node in
+   enumerate(nodelist)} over a simple graph); under it the code's accumulation `dA[index_of_node[u], ..] += ..`
+   over nested neighbour loops writes every cell from exactly one (u, v) and equals the closed form of the model. *)
+Theorem C06_generated_SIS_individual_based : forall Y t G nodelist idx tr rc,
+  length Y = length nodelist ->
+  veq (g_dSIS_individual_based Y t G nodelist idx tr rc) (dSIS_individual_based G nodelist idx tr rc Y t).
+Proof. exact gen_dSIS_individual_based. Qed.
+Theorem C06_generated_SIR_individual_based : forall V t G nodelist idx tr rc,
+  length V = (2 * length nodelist)%nat ->
+  veq (g_dSIR_individual_based V t G nodelist idx tr rc) (dSIR_individual_based G nodelist idx tr rc V t).
+Proof. exact gen_dSIR_individual_based. Qed.
+Theorem C06_generated_SIS_pair_based : forall G nodelist idx tr rc, pb_wfb G nodelist idx = true -> forall V t,
+  veq (g_dSIS_pair_based V t G nodelist idx tr rc) (dSIS_pair_based G nodelist idx tr rc V t).
+Proof. exact gen_dSIS_pair_based. Qed.
+Theorem C06_generated_SIR_pair_based : forall G nodelist idx tr rc, pb_wfb G nodelist idx = true -> forall V t,
+  veq (g_dSIR_pair_based V t G nodelist idx tr rc) (dSIR_pair_based G nodelist idx tr rc V t).
+Proof. exact gen_dSIR_pair_based. Qed.
+Theorem C06_generated_SIS_heterogeneous_pairwise : forall X t Nk NkNl tau gamma Ks,
+  length Nk = length Ks ->
+  veq (g_dSIS_heterogeneous_pairwise X t Nk NkNl tau gamma Ks) (dSIS_heterogeneous_pairwise X Nk NkNl tau gamma Ks t).
+Proof. exact gen_dSIS_heterogeneous_pairwise. Qed.
+Theorem C06_generated_SIR_heterogeneous_pairwise : forall X t tau gamma Nk Ks,
+  veq (g_dSIR_heterogeneous_pairwise X t tau gamma Nk Ks) (dSIR_heterogeneous_pairwise X tau gamma Ks t).
+Proof. exact gen_dSIR_heterogeneous_pairwise. Qed.
+Theorem C06_generated_SIS_effective_degree : forall X t r c tau gamma,
+  veq (g_dSIS_effective_degree X t (r, c) tau gamma) (dSIS_effective_degree X r c tau gamma t).
+Proof. exact gen_dSIS_effective_degree. Qed.
+Theorem C06_generated_SIR_effective_degree : forall X t N r c tau gamma,
+  length X = (r * c + 1)%nat ->
+  veq (g_dSIR_effective_degree X t N (r, c) tau gamma) (dSIR_effective_degree X N r c tau gamma t).
+Proof. exact gen_dSIR_effective_degree. Qed.
+(* non-vacuity of pb_wfb: the triangle with nodelist = its nodes and idx the position *)
+Example C06_generated_wf_nonvacuous : pb_wfb tri_graph tri_nodes tri_idx = true.
+Proof. vm_compute. reflexivity. Qed.
+Print Assumptions C06_generated_SIS_individual_based.
+Print Assumptions C06_generated_SIR_individual_based.
+Print Assumptions C06_generated_SIS_pair_based.
+Print Assumptions C06_generated_SIR_pair_based.
+Print Assumptions C06_generated_SIS_heterogeneous_pairwise.
+Print Assumptions C06_generated_SIR_heterogeneous_pairwise.
+Print Assumptions C06_generated_SIS_effective_degree.
+Print Assumptions C06_generated_SIR_effective_degree.
+Print Assumptions C06_generated_wf_nonvacuous.
